@@ -80,10 +80,11 @@ class KillRule(FactRule):
     name = 'R6.carried-state'
     interprocedural = True
 
-    def __init__(self, prog, fn, carried, coupled):
+    def __init__(self, prog, fn, carried, coupled, dirties=None):
         FactRule.__init__(self, prog, fn)
         self.carried = carried
         self.coupled = coupled     # guard field -> set of coupled fields
+        self.dirties = dirties or {}    # reader entry called from the entry point -> carried fields its closure writes
         self.final_reads = 0
 
     def summarise(self, ctx, call, target, ts):
@@ -125,6 +126,11 @@ class KillRule(FactRule):
                     ts = ts | frozenset([('pos', who)])
             elif n in MOVERS:
                 ts = frozenset(x for x in ts if not (isinstance(x, tuple) and x[0] == 'pos'))
+            if n in self.dirties:
+                # a stream read (the dictionary import goes through comp_read) leaves its own state behind: a reset
+                # made before it does not count for the request that follows
+                ts = frozenset(x for x in ts if not (isinstance(x, str) and x.startswith('killed:') and
+                                                     x[7:] in self.dirties[n]))
         if n == 'memset' and len(call.a) > 1:
             t = strip(call.a[1])
             if 'zckComp' in (t.t or ''):
@@ -188,7 +194,17 @@ def run(ctx):
             cf, where = coupled_fields(prog, funcs + [prog.need_func(h) for h in RESET_HELPERS], g)
             coupled[g] = cf - set([g])
         entry = prog.need_func('zck_get_chunk_data')
-        kr = KillRule(prog, entry, carried, coupled)
+        dirties = {}
+        for rn in ('import_dict', 'comp_read'):
+            rf = [f_ for f_ in prog.lib_funcs() if f_.name == rn]
+            if len(rf) != 1:
+                continue
+            seen_r, _ = prog.reachable_calls(rf)
+            fr = [prog.funcs[q] for q in seen_r if q not in (writer_slots - reader_slots)]
+            _, w_r = modref(prog, fr)
+            dirties[rn] = set(f for f in w_r if f in carried)
+        ck.extra['dirtied_by'] = dict((k, sorted(v)) for k, v in dirties.items())
+        kr = KillRule(prog, entry, carried, coupled, dirties)
         run_rule(prog, entry, kr)
         ck.require(kr.final_reads >= 1, 'zck_get_chunk_data no longer calls comp_read')
         by = {}
